@@ -248,6 +248,14 @@ func (r *AofRotateReader) tryReadNextFile(offset int64) error {
 	// take the reference on the next segment before releasing the one on the current segment,
 	// otherwise the collector may remove the next segment in between
 	(*r.observer.Load()).Open(offset)
+	// the writer's close may have removed the (empty) next segment from the data set between the
+	// caller's look at lastSeg() and the registration above : the segment then no longer knows this
+	// reader (or has already closed the readers it knew), nobody would ever end it and it would
+	// poll an unlinked file. Stay on the current segment, whose reference is still held
+	if offset > r.aof.lastSeg() {
+		(*r.observer.Load()).Close(offset)
+		return os.ErrNotExist
+	}
 	err = r.closeAof()
 	if err != nil {
 		r.logger.Errorf("close error : %v", err)
